@@ -26,7 +26,12 @@ class Defs(str):
 def load(defs, mode, compiled):
     # mode["loaded_as"]: the byte order the object had WHILE the definitions were loaded (and compiled); it is switched to
     # mode["endian"] afterwards - the byte order in force at call time is the one that counts (C05), for both readers (C03)
-    cs = new_cs(dict(mode, endian=mode.get("loaded_as", mode["endian"])))
+    cs = new_cs(dict(mode, endian=mode.get("loaded_as", mode["endian"]), ptr=mode.get("preload_ptr", mode["ptr"])))
+    if "preload_ptr" in mode:
+        # the object was used before, under ANOTHER pointer width, for definitions with pointers to the same targets: what is
+        # declared after the switch has the width configured then (nothing about a pointer type may be remembered per target)
+        cs.load("struct PRE_ { uint8 *a; char *b; uint16 *c; uint32 *d; uint8 **e; };")
+        cs.pointer = cs.resolve(absyn.PTRTYPES[mode["ptr"]])
     if getattr(defs, "parts", None):
         for text, align in defs.parts:
             cs.load(text, compiled=compiled, align=align)
